@@ -245,6 +245,9 @@ func runC09(c *core.Ctx) *core.Violation {
 					wInflight = uint64(op.N)
 					closedBefore := wClosed || rClosed
 					n, err := w.Write(buf)
+					for i := range buf {
+						buf[i] = 0xEE // the buffer is the caller's again once Write has returned
+					}
 					wInflight = 0
 					if n < 0 || n > op.N {
 						fail("write-count", "range", "Write(%d) returned n=%d", op.N, n)
